@@ -201,11 +201,13 @@ pub struct Server {
     pub sent: u16,
     /// total client bytes consumed (complete frames)
     pub consumed: usize,
+    /// raw TPDUs received, with the phase at arrival
+    pub frames: Vec<(Phase, Vec<u8>)>,
 }
 
 impl Server {
     pub fn new(profile: ServerProfile) -> Server {
-        Server { profile, phase: Phase::ConnectInitial, inbuf: Vec::new(), events: Vec::new(), violations: Vec::new(), notes: Vec::new(), remaining_joins: Vec::new(), act_idx: 0, share_id: None, fault: None, sent: 0, consumed: 0 }
+        Server { profile, phase: Phase::ConnectInitial, inbuf: Vec::new(), events: Vec::new(), violations: Vec::new(), notes: Vec::new(), remaining_joins: Vec::new(), act_idx: 0, share_id: None, fault: None, sent: 0, consumed: 0, frames: Vec::new() }
     }
 
     fn emit(&mut self, out: &mut Vec<OutMsg>, name: &'static str, b: Built) {
@@ -275,6 +277,9 @@ impl Server {
             self.inbuf = buf[first_len..].to_vec();
             let _ = used;
             self.consumed += first_len;
+            if self.frames.len() < 4096 {
+                self.frames.push((self.phase, frame.clone()));
+            }
             let before = out.len();
             let gating = self.handle(&frame, &mut out);
             if gating && out.len() > before && rest_nonempty {
